@@ -22,6 +22,7 @@
 #include <unistd.h>
 
 extern "C" int usim_epoll_registrations_in(const void* p, size_t n);
+extern "C" void usim_last_pipe(int out[2]);
 
 using namespace kit;
 
@@ -514,9 +515,189 @@ void body_uring_flood(void*) {
   { usim::np_scope np; delete w; }
 }
 
+
+// ---- io_epoll with a full pipe: async_write_some parks (EAGAIN -> EPOLLOUT registration), is cancelled or woken by a drain,
+// is destroyed, and a second write on the same descriptor follows. The pipe is shrunk to one page, filled and drained
+// behind the library's back with raw read()/write() on its descriptors. Oracles: exactly-once completion, done only after a
+// stop request, a cancelled write transferred nothing, the byte stream seen by the drains is fill + A's reported bytes +
+// B's reported bytes, no epoll registration outlives the operation it points to (c14.stale-registration, fd layer).
+void body_epoll_wfull(void*) {
+  using T = epoll_traits;
+  using ctx_t = T::ctx_t;
+  struct WOp { int len = 1; int stop_mode = 0; int stop_yields = 0; OpRec rec; unifex::inplace_stop_source stop; unsigned char* buf = nullptr; };
+  struct FW {
+    arena_box<ctx_t> ctx;
+    unifex::inplace_stop_source run_stop;
+    WOp a, b;
+    int room = 0;          // bytes left free before A starts (0: A parks)
+    int drain1_yields = 0; // when the first drain happens relative to A's start (-1: no drain before A has completed)
+    bool second = true;    // a second write B follows
+    bool refill = true;    // the pipe is filled again before B (so that B parks too)
+    int drain2_yields = 0;
+    int fds[2] = {-1, -1};
+    hvec<unsigned char> stream;    // everything the drains read, in order
+    hvec<unsigned char> expected;  // what the stream must be
+    volatile int a_over = 0, b_started = 0, b_over = 0;
+    int io_tid = -1;
+  };
+  FW* w;
+  { usim::np_scope np; w = new FW(); }
+  w->room = draw(4) == 0 ? 1 + draw(60) : 0;
+  w->a.len = 1 + draw(48);
+  { int sm = draw(6); w->a.stop_mode = sm < 1 ? 0 : sm < 2 ? 1 : 2; }
+  w->a.stop_yields = draw_small(14);
+  w->drain1_yields = w->a.stop_mode == 0 ? draw_small(14) : (draw(2) ? draw_small(14) : -1);
+  w->second = draw(4) != 0;
+  w->refill = draw(3) != 0;
+  w->b.len = 1 + draw(48);
+  { int sm = draw(6); w->b.stop_mode = sm < 4 ? 0 : 2; }
+  w->b.stop_yields = draw_small(14);
+  w->drain2_yields = draw_small(14);
+  if (draw(3) == 0) usim_fault_rate(USIM_F_CAS_WEAK, 100);
+  if (draw(4) == 0) usim_fault_rate(USIM_F_SYSCALL, 60);
+  usim_sample("io_epoll_wfull: room=%d A(len=%d stop=%d/%d) drain1=%d B=%d(len=%d stop=%d/%d refill=%d) drain2=%d", w->room, w->a.len, w->a.stop_mode, w->a.stop_yields, w->drain1_yields,
+              (int)w->second, w->b.len, w->b.stop_mode, w->b.stop_yields, (int)w->refill, w->drain2_yields);
+  for (WOp* o : {&w->a, &w->b}) {
+    o->rec.what = "async_write_some";
+    o->rec.a = o == &w->a ? 0 : 1;
+    o->rec.oracle_double = "c14.double";
+    o->rec.stop = &o->stop;
+  }
+  w->ctx.construct();
+  auto sched = w->ctx->get_scheduler();
+  std::thread io([w] { { usim::np_scope np; w->io_tid = usim_here(); } w->ctx->run(w->run_stop.get_token()); });
+  arena_box<T::Chan> chan_box;
+  T::Chan* chan = &chan_box.construct(sched);
+  usim_last_pipe(w->fds);
+  if (fcntl(w->fds[1], F_SETPIPE_SZ, 4096) < 0) abort();
+  unsigned char fillc = 1;
+  // raw helpers (interposed read()/write(): scheduling points that wake the simulated epoll_wait)
+  auto fill = [w, &fillc](int leave) {
+    unsigned char chunk[256];
+    long total = 0;
+    for (;;) {
+      int n = 256;
+      for (int i = 0; i < n; ++i) chunk[i] = (unsigned char)(fillc + i);
+      ssize_t r = write(w->fds[1], chunk, (size_t)n);
+      if (r <= 0) break;
+      { usim::np_scope np; for (ssize_t i = 0; i < r; ++i) w->expected.push_back(chunk[i]); }
+      fillc = (unsigned char)(fillc + r);
+      total += r;
+    }
+    (void)leave;
+    return total;
+  };
+  auto drain = [w](long limit) {
+    unsigned char chunk[512];
+    long total = 0;
+    while (limit < 0 || total < limit) {
+      size_t want = sizeof chunk;
+      if (limit >= 0 && (long)want > limit - total) want = (size_t)(limit - total);
+      ssize_t r = read(w->fds[0], chunk, want);
+      if (r <= 0) break;
+      { usim::np_scope np; for (ssize_t i = 0; i < r; ++i) w->stream.push_back(chunk[i]); }
+      total += r;
+    }
+    return total;
+  };
+  long filled = fill(0);
+  if (filled != 4096) { usim::np_scope np; KIT_CHECK(false, "harness.pipe", "pipe of one page took %ld bytes", filled); }
+  // room > 0: the page has to be emptied completely before the pipe accepts data again (a partly read page stays "full"),
+  // so "room" means: empty pipe, A completes inline
+  if (w->room) drain(-1);
+  using S = unifex::inline_scheduler;
+  auto run_write = [w, chan](WOp& o, unsigned char pat, volatile int* started) {
+    o.buf = (unsigned char*)usim_alloc((size_t)o.len);
+    for (int b = 0; b < o.len; ++b) o.buf[b] = (unsigned char)(pat + b);
+    if (o.stop_mode == 1) o.rec.request_stop();
+    auto snd = chan->write(o.buf, (size_t)o.len);
+    started_op<S, decltype(snd)> op;
+    op.start(&o.rec, S{}, std::move(snd));
+    if (started) *started = 1;
+    o.rec.wait();
+    op.destroy();   // (arena free: the fd layer checks that no epoll registration points into the operation)
+    {
+      usim::np_scope np;
+      OpRec& r = o.rec;
+      KIT_CHECK(r.done_tid == w->io_tid || r.in_start, "c14.wrong-thread", "write %ld completed on T%d (not the io thread, not inline)", r.a, r.done_tid);
+      if (r.channel == CH_VALUE) {
+        KIT_CHECK(r.value > 0 && r.value <= o.len, "c14.bytes", "write of %d bytes reported %ld bytes written", o.len, r.value);
+        for (long b = 0; b < r.value; ++b) w->expected.push_back(o.buf[b]);
+        usim_probe(r.in_start ? "write completed inline" : "parked write woken by a drain");
+      } else if (r.channel == CH_DONE) {
+        KIT_CHECK(r.stop_begin != 0, "c14.done-without-stop", "write %ld completed with done although its stop was never requested", r.a);
+        usim_probe("parked write cancelled");
+      } else {
+        KIT_CHECK(false, "c14.errno", "write %ld failed with an error although no error was injected", r.a);
+      }
+    }
+    usim_free(o.buf);
+  };
+  std::thread writer([w, &run_write, &fill, &drain] {
+    run_write(w->a, 0x40, nullptr);
+    w->a_over = 1;
+    if (w->second) {
+      // B must park or complete inline on a well-defined pipe state: full again, or empty
+      if (w->refill) { drain(-1); long f = fill(0); (void)f; }
+      else drain(-1);
+      run_write(w->b, 0x90, &w->b_started);
+    }
+    w->b_over = 1;
+  });
+  std::thread stopper([w] {
+    for (WOp* o : {&w->a, &w->b}) {
+      if (o == &w->b && !w->second) break;
+      if (o->stop_mode != 2) continue;
+      struct P { OpRec* r; volatile int* over; static int pred(void* p) { auto* q = (P*)p; return q->r->start_begin != 0 || *q->over; } } p{&o->rec, &w->b_over};
+      usim_wait(&P::pred, &p);
+      if (!o->rec.start_begin) continue;
+      yields(o->stop_yields);
+      bool go;
+      { usim::np_scope np; go = !o->rec.stop_begin; if (go) o->rec.stop_begin = seq(); }
+      if (go) { o->stop.request_stop(); usim::np_scope np; o->rec.stop_end = seq(); }
+    }
+  });
+  std::thread drainer([w, &drain] {
+    // first drain: wakes a parked A (unless the plan leaves A to its stop request)
+    {
+      struct P { OpRec* r; static int pred(void* p) { return ((P*)p)->r->start_begin != 0; } } p{&w->a.rec};
+      usim_wait(&P::pred, &p);
+      if (w->drain1_yields >= 0) { yields(w->drain1_yields); if (!w->a_over) drain(-1); }
+      else if (w->a.stop_mode == 0) drain(-1);
+    }
+    if (w->second) {
+      struct P { volatile int* s; volatile int* o; static int pred(void* p) { auto* q = (P*)p; return *q->s || *q->o; } } p{&w->b_started, &w->b_over};
+      usim_wait(&P::pred, &p);
+      yields(w->drain2_yields);
+      // B without a stop request needs the drain to complete at all; with one, the drain races the stop
+      if (!w->b_over) drain(-1);
+    }
+  });
+  writer.join();
+  stopper.join();
+  drainer.join();
+  drain(-1);
+  chan_box.destroy();
+  w->run_stop.request_stop();
+  io.join();
+  w->ctx.destroy();
+  {
+    usim::np_scope np;
+    KIT_CHECK(w->a.rec.completions == 1, "c14.lost", "write A never completed");
+    if (w->second) KIT_CHECK(w->b.rec.completions == 1, "c14.lost", "write B never completed");
+    bool same = w->stream.size() == w->expected.size();
+    size_t at = 0;
+    for (; same && at < w->stream.size(); ++at) if (w->stream[at] != w->expected[at]) { same = false; break; }
+    KIT_CHECK(same, "c14.data", "the bytes that came out of the pipe (%zu) differ from fill + reported writes (%zu) at offset %zu: a reported result does not match what was transferred (or a cancelled write transferred data)",
+              w->stream.size(), w->expected.size(), at);
+    usim_probe("full-pipe stream checked");
+  }
+  { usim::np_scope np; delete w; }
+}
+
 }  // namespace
 
 int main(int argc, char** argv) {
-  static const usim_workload table[] = {{"io_epoll", body_io<epoll_traits>}, {"io_uring", body_io<uring_traits>}, {"io_uring_flood", body_uring_flood}};
-  return usim_main(argc, argv, table, 3);
+  static const usim_workload table[] = {{"io_epoll", body_io<epoll_traits>}, {"io_uring", body_io<uring_traits>}, {"io_uring_flood", body_uring_flood}, {"io_epoll_wfull", body_epoll_wfull}};
+  return usim_main(argc, argv, table, 4);
 }
